@@ -2,7 +2,7 @@
    Statements only; proofs in Metrics/ErrorRateFacts.v.  Model: Metrics/ErrorRate.v (BitErrorRate,
    BlockErrorRate = SER = FER, benchmark helpers), counters unbounded, rates as exact (numerator, denominator). *)
 From Coq Require Import NArith QArith List Bool Arith Permutation.
-From KV Require Import Metrics.ErrorRate Metrics.ErrorRateFacts.
+From KV Require Import Metrics.ErrorRate Metrics.ErrorRateFacts Metrics.BlockCut.
 Import ListNotations.
 
 (* For EVERY history p of update / compute / reset operations (updates with rejected batches included), a
@@ -69,3 +69,21 @@ Theorem C16_ber_le_bler_le : forall bs (flags : list bool) nb, (0 < bs)%nat -> l
   (c * nb <= bad * length flags)%nat /\ (bad * length flags <= bs * c * nb)%nat /\ (bad <= length (chunks bs flags))%nat.
 Proof. exact ber_le_bler_le. Qed.
 Print Assumptions C16_ber_le_bler_le.
+
+(* ---- where the blocks of a multi-dimensional item are cut (Metrics/BlockCut.v) ---- *)
+
+(* when the block size divides every row, cutting whole blocks row by row (Tensor.unfold along the last axis) is cutting the
+   flattened item: an implementation may use either *)
+Theorem C16_unfold_cut_agrees : forall (A : Type) bs (rows : list (list A)), (0 < bs)%nat ->
+  Forall (fun r => Nat.modulo (length r) bs = 0%nat) rows -> unfold_cut bs rows = flat_cut bs rows.
+Proof. exact @unfold_cut_agrees. Qed.
+Print Assumptions C16_unfold_cut_agrees.
+
+(* when it divides the item but not its rows they differ: blocks are lost and differences in the dropped positions are
+   not seen (the shape of the seeded change C16_f); the correspondence evaluates the flattened cut on such shapes *)
+Theorem C16_unfold_cut_refuted :
+  exists (rows : list (list bool)) (bs : nat), (0 < bs)%nat /\ Nat.modulo (length (concat rows)) bs = 0%nat /\
+    length (unfold_cut bs rows) <> length (flat_cut bs rows) /\
+    (exists rows', concat rows' <> concat rows /\ unfold_cut bs rows' = unfold_cut bs rows).
+Proof. exact unfold_cut_refuted. Qed.
+Print Assumptions C16_unfold_cut_refuted.
